@@ -77,3 +77,21 @@ Lemma guard_examples :
   /\ core_of [64; 102; 58; 49; 124; 120; 59]%N = Some false /\ core_of [51; 40; 118; 43; 88; 41]%N = Some false
   /\ core_of [51; 40; 110; 50; 61; 91; 88; 93; 41]%N = Some true /\ core_of [955; 118; 120; 59]%N = Some true /\ core_of [955; 118; 43; 120; 59]%N = Some false.
 Proof. vm_compute. repeat split; reflexivity. Qed.
+
+(* ---- strings ------------------------------------------------------------------------------------------ *)
+(* `ab`(n\!+,)`0`[`yes`|`no`],   a for loop over the characters of a string, concatenation with a character literal,
+   the string "0" is true: prints a!, b!, yes *)
+Definition ex_src_str1 : str := [96; 97; 98; 96; 40; 110; 92; 33; 43; 44; 41; 96; 48; 96; 91; 96; 121; 101; 115; 96; 124; 96; 110; 111; 96; 93; 44]%N.
+(* ⟨`a`|1⟩`b`+   + vectorises over a list of a string and a number; inside a list strings print back-quoted *)
+Definition ex_src_str2 : str := [10216; 96; 97; 96; 124; 49; 10217; 96; 98; 96; 43]%N.
+
+Lemma example_strings :
+  (exists p s, parse_source ex_src_str1 = Ok p /\ core_program p = true
+    /\ run_machine FlNone 12 [] p = XOk s /\ run_ref FlNone 12 [] p = XOk s
+    /\ stk s = [] /\ out s = text [[97; 33]; [98; 33]; [121; 101; 115]]%N)
+  /\ (exists p s, parse_source ex_src_str2 = Ok p /\ core_program p = true
+    /\ run_machine FlNone 12 [] p = XOk s /\ run_ref FlNone 12 [] p = XOk s
+    /\ stk s = [] /\ out s = text [[10216; 32; 96; 97; 98; 96; 32; 124; 32; 96; 49; 98; 96; 32; 10217]]%N).
+Proof.
+  split; (eexists; eexists; split; [vm_compute; reflexivity|]; vm_compute; repeat split; reflexivity).
+Qed.
